@@ -182,6 +182,74 @@ check("C11",
       "aliasing of NumPy buffers inside kernels: no arithmetic to encode), array/boolean/dask keys.",
       "DESIGN.md 6 C11")
 
+CAT = ("an enumerated catalogue of ~30 programs (sources, transpose, expand_dims, broadcast_to, basic slices incl. newaxis and "
+       "negative steps, rechunk, element-wise with aligned / unaligned / broadcast operands and shared subtrees, concatenate, "
+       "stack, and two-level compositions such as (x+y)[a:b], x.T[a:b,i], concatenate(...)[a:b], rechunk(...)[a:b], "
+       "(x+y).T) over sources with symbolic, unbounded chunk sizes, slice bounds and integer indices (block counts, ranks, "
+       "steps concrete)")
+TCAT = "bounded symbolic execution of the repo's own optimizer pipeline and layers on symbolic-size expression trees (symx nodes) + symbolic-array graph execution + z3 SMT (QF_UFLIA)"
+
+check("C01",
+      "Solver-decided for " + CAT + ": each program is built from the repository's own expression classes and turned into "
+      "a task graph by the repository's own _materialize (simplify -> lower -> fuse -> pin), with optimize-graph on and off; "
+      "the real _layer graphs are executed on symbolic arrays whose elements are an uninterpreted function of the source "
+      "position, and the assembled result equals the NumPy meaning of the program at a skolem index for every size, bound "
+      "and data.",
+      "Trusted: z3, symx (nodes: constructors/tokenize bypassed with structural names; sarr: NumPy semantics of the block "
+      "kernels), dask's simplify/lower drivers run as they are. The program space is enumerated, not all compositions; "
+      "reductions/scans/windows/setitem/store/reads are C18/C19/C11/C25/C24; dtype and float rounding not modelled.",
+      "DESIGN.md 6 C01", technique=TCAT)
+
+check("C02",
+      "Solver-decided for " + CAT + ": the repository's own optimizer runs on the symbolic tree -- dask's Expr.simplify over "
+      "the repository's _simplify_down/_simplify_up (slice/rechunk pushdowns with their sharing gates), lower_completely "
+      "over _lower (chunk unification, rechunk-into-IO), optimize_blockwise_fusion_array -- and the raw, lowered and fused "
+      "forms are each executed from their real layers; all equal the NumPy meaning (hence each other) at a skolem index, with "
+      "the advertised block shapes; fused tasks run through dask's Task.fuse sub-graphs, so each member reads the block "
+      "FusedBlockwise._compute_block_ids chose.",
+      "Trusted: as C01. Which rewrites fire is whatever the real optimizer does on each path (observed trees are recorded as "
+      "witnesses). Outside: rewrites not reachable from the catalogue (shuffle pushdown, reshape, sliding-window "
+      "substitution -> C19, reductions -> C18), dtype.",
+      "DESIGN.md 6 C02", technique=TCAT)
+
+check("C03",
+      "Solver-decided for " + CAT + ": the advertised shape equals NumPy's shape of the program, and in the graph produced by "
+      "the repository's own _materialize (optimize-graph on and off) the block at every block index has exactly the size "
+      "given by the original node's .chunks on every axis -- whatever layout the optimizer chose internally (the bridge back "
+      "to advertised chunks is part of the executed code).",
+      "Trusted: as C01. Outside: dtype (a seeded dtype-only change is not detected), unknown (nan) sizes, classes outside "
+      "the catalogue (e.g. diag, reshape, reductions' chunks are C18).",
+      "DESIGN.md 6 C03", technique=TCAT)
+
+check("C04",
+      "Solver-decided for " + CAT + ": the graph from the repository's own _materialize (optimize-graph on and off) is rooted "
+      "at the collection's original name, defines exactly the (name, *block index) grid of the advertised block structure, "
+      "every key referenced while executing every block is defined (closed), no task depends on itself and no dependency "
+      "cycle is met.",
+      "Trusted: as C01; names are structural digests standing in for content hashes. Outside: Array._cached_dask_keys / "
+      "in-place expression replacement on the collection object, FromGraph/persist, cross-collection graph merging.",
+      "DESIGN.md 6 C04", technique=TCAT)
+
+check("C08",
+      "Solver-decided for " + CAT + ": on every feasible path of the symbolic execution the repository's optimizer (simplify, "
+      "lower_completely, fuse, _materialize) terminates without raising on a program whose raw form computes; optimizing the "
+      "optimized expression, simplifying the simplified one and lowering the lowered one return the same name; "
+      "_materialize of a materialized tree is itself; the optimized program still executes.",
+      "Trusted: as C01; a non-terminating rewrite loop would exhaust the instance budget and be reported inconclusive. "
+      "Outside: programs beyond the catalogue.",
+      "DESIGN.md 6 C08", technique=TCAT)
+
+check("C09",
+      "Solver-decided: configuration half -- unaligned element-wise programs under array.unify-chunks-policy in "
+      "{auto, coarse, refine} x a symbolic array.unify-chunks-limit x optimize-graph on/off; rechunks executed through the "
+      "repository's own plan_rechunk (multi-stage) under symbolic array.rechunk.threshold / array.chunk-size and degree-limit "
+      "2/100; reduction trees under config split_every 2,3,4,16 -- all materialized by the real _materialize and equal to the "
+      "NumPy meaning for every value of the key. History half -- two programs sharing a lowered subtree materialized through "
+      "one shared _LOWER_CACHE in both orders still compute their NumPy meaning.",
+      "Trusted: as C01. Bounded sizes (<=4..5) where the planner is nonlinear. Outside: arbitrary interleavings of many "
+      "collections, the singleton registry / weak-reference eviction, method=p2p.",
+      "DESIGN.md 6 C09", technique=TCAT)
+
 ALL = [f"C{i:02d}" for i in range(1, 30)]
 
 
